@@ -121,4 +121,44 @@ def evalBody (p2 p3 : Nat → Option (List Char)) (dateOf : Nat → List Char)
     (as : List Assign) (os : List Out) (elapsed : Nat) : Option (List Char) :=
   evalOuts p2 p3 dateOf os (evalAssigns as elapsed [])
 
+/-! ### the rune loops of `DateFormat.format` and `DateFormat.Parse` (data only; semantics in Golib.Cal.LoopIR)
+
+  Both functions are one `for … range this.formatStr` whose body is a `switch ch` over rune constants.
+  `xlate/c19` transcribes the *whole* loop body, statement by statement; a statement it does not know
+  (a flag that is toggled, a `continue`, an extra test) is `.other`, to which the semantics gives no meaning. -/
+
+/-- the `time.Time` accessor a `format` case (or a fill statement of `Parse`) reads -/
+inductive TimeSel where
+  | year | month | day | hour | minute | second
+  | nanoDivMod (d m : Nat)      -- int((t.UnixNano() / d) % m)
+  | other
+deriving DecidableEq, Repr
+
+/-- what a clause of `switch ch` in `format` does -/
+inductive FmtAct where
+  | writePad (sel : TimeSel) (w : Nat)   -- buf.WriteString(LPadInt(<sel>, w))
+  | writeRune                            -- buf.WriteRune(ch)
+  | nop                                  -- (no default clause)
+  | other
+deriving DecidableEq, Repr
+
+inductive FmtStmt where
+  | switchCh (cases : List (Nat × FmtAct)) (dflt : FmtAct)
+  | other
+deriving DecidableEq, Repr
+
+/-- what a clause of `switch ch` in `Parse` does -/
+inductive ParseAct where
+  | toIntStore (w : Nat)   -- if v, err := this.ToInt(r, w); err == nil { this.date[ch] = v } else { return 0, <error> }
+  | readRune               -- r.ReadRune()
+  | nop
+  | other
+deriving DecidableEq, Repr
+
+inductive ParseStmt where
+  | breakIfIdxGeSz         -- if i >= sz { break }   (i: the range index, sz := len(dateStr))
+  | switchCh (cases : List (Nat × ParseAct)) (dflt : ParseAct)
+  | other
+deriving DecidableEq, Repr
+
 end Cal
